@@ -50,7 +50,7 @@ def _caller_module(depth=2):
     return "?"
 
 
-def boot(modules="all", order=None) -> Boot:
+def boot(modules="all", order=None, between=None) -> Boot:
     """Import the library with recording wrappers.  Idempotent per process."""
     global _BOOT
     if _BOOT is not None:
@@ -126,6 +126,8 @@ def boot(modules="all", order=None) -> Boot:
         try:
             importlib.import_module(f"measured.{name}")
             b.modules.append(name)
+            if between is not None:
+                between(name)  # what a program does between two imports (lookups, parsing)
         except Exception as e:  # a tree that cannot import is inconclusive for the caller
             b.errors.append((name, f"{type(e).__name__}: {e}"))
     if modules == "all":
